@@ -111,9 +111,12 @@ class Gen:
                 continue
             f = n.func
             name = f.attr if isinstance(f, ast.Attribute) and isinstance(f.value, ast.Name) and f.value.id == "self" else None
-            if name is None or not n.args:
+            if name is None:
                 continue
-            fld = self._field_of(n.args[0], nvar, aliases)
+            args = (S.positional_args(n, self.methods[name]) if name in self.methods else None) or list(n.args)
+            if not args or args[0] is None:
+                continue
+            fld = self._field_of(args[0], nvar, aliases)
             if fld is None:
                 continue
             ops = self._case_ops(n, fn, nvar)
@@ -126,7 +129,7 @@ class Gen:
             elif name == "_parenthesize_unless_simple":
                 out.setdefault(fld, []).append(("unless_simple", n, None, ops))
             elif name == "_parenthesize_if":
-                out.setdefault(fld, []).append(("paren_if", n, n.args[1] if len(n.args) > 1 else None, ops))
+                out.setdefault(fld, []).append(("paren_if", n, args[1] if len(args) > 1 else None, ops))
             elif name.startswith("_generate") or name.startswith("visit_"):
                 out.setdefault(fld, []).append((name, n, None, ops))
         return out
